@@ -56,4 +56,4 @@ package utils
 //@ assigns BufC, BufStore
 //@ ensures err == nil
 //@ ensures err == nil ==> BufC == store(store(old(BufC), ref(unbox(*bytes.Buffer, src)), ""), ref(unbox(*bytes.Buffer, dst)), old(BufC)[ref(unbox(*bytes.Buffer, dst))] + s2c(old(BufC)[ref(unbox(*bytes.Buffer, src))]))
-//@ ensures forall(Int(x), (x != ref(unbox(*bytes.Buffer, src)) && x != ref(unbox(*bytes.Buffer, dst))) ==> BufStore[x] == old(BufStore)[x], trig(BufStore[x]))
+//@ ensures BufStore == store(store(old(BufStore), ref(unbox(*bytes.Buffer, src)), BufStore[ref(unbox(*bytes.Buffer, src))]), ref(unbox(*bytes.Buffer, dst)), BufStore[ref(unbox(*bytes.Buffer, dst))])
